@@ -128,7 +128,7 @@ Qed.
 
 Lemma range_cmp_le : forall a r, r_from r <= a -> range_cmp a r <> OGreater.
 Proof.
-  intros a r H. unfold range_cmp. destruct ((r_from r <=? a) && (a <=? r_to r)); [discriminate|].
+  intros a r H. unfold range_cmp. destruct ((r_from r <=? a) && (a <? r_to r)); [discriminate|].
   destruct (N.ltb_spec a (r_from r)); [lia|discriminate].
 Qed.
 
@@ -140,21 +140,21 @@ Proof.
 Qed.
 
 Lemma range_cmp_eq : forall a r, r_from r <= a ->
-  range_cmp a r = if a <=? r_to r then OEqual else OLess.
+  range_cmp a r = if a <? r_to r then OEqual else OLess.
 Proof.
   intros a r H. unfold range_cmp.
   destruct (N.leb_spec (r_from r) a); [|lia]. cbn [andb].
-  destruct (a <=? r_to r); [reflexivity|]. destruct (N.ltb_spec a (r_from r)); [lia|reflexivity].
+  destruct (a <? r_to r); [reflexivity|]. destruct (N.ltb_spec a (r_from r)); [lia|reflexivity].
 Qed.
 
 (* what find_range computes on a list sorted by `from`: the LAST range that starts at or
-   before the address, accepted if the address is <= its `to` (inclusive) *)
+   before the address, accepted if the address is < its `to` (exclusive; `<=` before 231e3e9) *)
 Theorem find_range_char : forall a l1 l2,
   Forall (fun r => r_from r <= a) l1 -> Forall (fun r => a < r_from r) l2 ->
   find_range (l1 ++ l2) a =
   Ok (match rev l1 with
       | [] => None
-      | r :: _ => if a <=? r_to r then Some r else None
+      | r :: _ => if a <? r_to r then Some r else None
       end).
 Proof.
   intros a l1 l2 F1 F2. unfold find_range.
@@ -162,7 +162,7 @@ Proof.
   - cbn [bind]. destruct l1 as [|x l1'] using rev_ind; [reflexivity|]. clear IHl1'.
     rewrite rev_app_distr. cbn [rev app].
     apply Forall_app in F1. destruct F1 as [_ Fx]. inversion Fx; subst.
-    rewrite range_cmp_eq by assumption. destruct (a <=? r_to x); [|reflexivity].
+    rewrite range_cmp_eq by assumption. destruct (a <? r_to x); [|reflexivity].
     rewrite app_length. cbn [length]. rewrite <- app_assoc.
     rewrite nth_error_app2 by lia. replace (length l1' + 1 - 1 - length l1')%nat with 0%nat by lia.
     reflexivity.
@@ -178,19 +178,19 @@ Proof.
 Qed.
 
 Theorem find_range_sound : forall l a r, sorted_from l ->
-  find_range l a = Ok (Some r) -> In r l /\ r_from r <= a <= r_to r.
+  find_range l a = Ok (Some r) -> In r l /\ r_from r <= a < r_to r.
 Proof.
   intros l a r S H. destruct (split_sorted a l S) as [l1 [l2 [E [F1 F2]]]]. subst l.
   rewrite find_range_char in H by assumption.
   destruct l1 as [|x l1'] using rev_ind; [discriminate|]. clear IHl1'.
   rewrite rev_app_distr in H. cbn [rev app] in H.
-  destruct (N.leb_spec a (r_to x)); [|discriminate]. inversion H; subst x.
+  destruct (N.ltb_spec a (r_to x)); [|discriminate]. inversion H; subst x.
   apply Forall_app in F1. destruct F1 as [_ Fx]. inversion Fx; subst.
   split; [|lia]. apply in_app_iff. left. apply in_app_iff. right. left. reflexivity.
 Qed.
 
 Theorem find_range_none : forall l a, sorted_from l ->
-  (forall r, In r l -> ~ (r_from r <= a <= r_to r)) -> find_range l a = Ok None.
+  (forall r, In r l -> ~ (r_from r <= a < r_to r)) -> find_range l a = Ok None.
 Proof.
   intros l a S H. destruct (find_range_total l a S) as [[r|] E]; [|exact E].
   exfalso. destruct (find_range_sound l a r S E) as [I R]. exact (H r I R).
@@ -205,11 +205,9 @@ Proof.
   - eapply IH; eassumption.
 Qed.
 
-(* FULL STATEMENT (false, see find_range_refuted):
-     forall l a, wf_ranges l = true -> find_range l a = Ok (spec_find_range l a).
-   PROVED for an address strictly inside a range (from <= a < to): that range is found,
-   also when the previous range ends exactly at a (adjacent ranges). *)
-Theorem find_range_partial : forall l a r, wf_ranges l = true ->
+(* an address inside a range (from <= a < to): that range is found, also when the previous
+   range ends exactly at a (adjacent ranges) *)
+Theorem find_range_inside : forall l a r, wf_ranges l = true ->
   In r l -> r_from r <= a < r_to r -> find_range l a = Ok (Some r).
 Proof.
   intros l a r W I R. apply wf_ranges_prop in W. pose proof (wf_sorted_from l W) as S.
@@ -227,7 +225,7 @@ Proof.
     assert (D : lt_disj r x).
     { eapply SS_app_inv; [exact SS|exact I1|]. left. reflexivity. }
     unfold lt_disj in D. apply Forall_app in F1. destruct F1 as [_ Fx]. inversion Fx; subst. lia. }
-  subst x. destruct (N.leb_spec a (r_to r)); [reflexivity|lia].
+  subst x. destruct (N.ltb_spec a (r_to r)); [reflexivity|lia].
 Qed.
 
 (* the specification answer is unique under wf_ranges *)
@@ -246,42 +244,36 @@ Proof.
     destruct (N.ltb_spec a (r_to x)); [lia|]. apply IH; assumption.
 Qed.
 
-(* no range ends exactly at a *)
-Definition no_to_at (a : N) (l : list rrange) : bool := forallb (fun r => negb (r_to r =? a)) l.
-
-Theorem find_range_exact_partial : forall l a, wf_ranges l = true -> no_to_at a l = true ->
+(* model = specification: the unique object whose half-open image contains the address *)
+Theorem find_range_exact : forall l a, wf_ranges l = true ->
   find_range l a = Ok (spec_find_range l a).
 Proof.
-  intros l a W Hn. destruct (spec_find_range l a) as [r|] eqn:Sp.
+  intros l a W. destruct (spec_find_range l a) as [r|] eqn:Sp.
   - unfold spec_find_range in Sp. apply find_some in Sp. destruct Sp as [I R].
     unfold in_range in R. apply andb_true_iff in R. destruct R as [R1 R2].
-    apply N.leb_le in R1. apply N.ltb_lt in R2. apply find_range_partial; [exact W|exact I|lia].
+    apply N.leb_le in R1. apply N.ltb_lt in R2. apply find_range_inside; [exact W|exact I|lia].
   - apply find_range_none; [apply wf_sorted_from, wf_ranges_prop, W|].
     intros r I [R1 R2]. unfold spec_find_range in Sp. pose proof (find_none _ _ Sp r I) as Nn.
-    unfold no_to_at in Hn. rewrite forallb_forall in Hn. specialize (Hn r I).
-    apply negb_true_iff, N.eqb_neq in Hn. unfold in_range in Nn.
+    unfold in_range in Nn.
     destruct (N.leb_spec (r_from r) a); [|lia]. destruct (N.ltb_spec a (r_to r)); [discriminate|lia].
 Qed.
 
-Example find_range_exact_applies :
-  let l := [mk_rrange 4096 8192 0; mk_rrange 8192 12288 1] in
-  wf_ranges l = true /\ no_to_at 8200 l = true.
-Proof. split; reflexivity. Qed.
-
-(* adjacent ranges: the address where one ends and the next begins is attributed to the
-   next one (correct) *)
+(* adjacent ranges: the address where one ends and the next begins belongs to the next one *)
 Example find_range_adjacent :
   find_range [mk_rrange 4096 8192 0; mk_rrange 8192 12288 1] 8192 = Ok (Some (mk_rrange 8192 12288 1)).
 Proof. reflexivity. Qed.
 
-(* the upper bound is inclusive: the first address past an object that is not the start of
-   another object is still attributed to it *)
-Theorem find_range_refuted : exists l a r,
-  wf_ranges l = true /\ spec_find_range l a = None /\ find_range l a = Ok (Some r).
-Proof.
-  exists [mk_rrange 4096 8192 0; mk_rrange 12288 16384 1], 8192. eexists.
-  split; [reflexivity|]. split; reflexivity.
-Qed.
+(* the first address past an object that is not the start of another object belongs to none *)
+Example find_range_past_end :
+  find_range [mk_rrange 4096 8192 0; mk_rrange 12288 16384 1] 8192 = Ok None.
+Proof. reflexivity. Qed.
+
+(* _old (before 231e3e9, `addr <= range.to`): find_range_refuted :
+     exists l a r, wf_ranges l = true /\ spec_find_range l a = None /\ find_range l a = Ok (Some r)
+   with l = [(4096,8192,0); (12288,16384,1)], a = 8192; then only
+     find_range_exact_partial : wf_ranges l = true -> no_to_at a l = true -> find_range l a = Ok (spec_find_range l a)
+   held.  Confirmed on the real debugger (11 of 11 range ends), repaired; the example above is
+   the old witness. *)
 
 (* ------------------------------------------------------------------ *)
 (** * Round trip                                                        *)
@@ -308,42 +300,48 @@ Proof.
   cbn [bind] in Hr. unfold relocate in Hr. destruct (g + off <? USIZE_LIMIT); [|discriminate].
   inversion Hr; subst a.
   unfold into_global, mapping_offset_for_pc, find_mapping_offset.
-  rewrite (find_range_partial _ (g + off) r W I) by lia. cbn [bind]. rewrite Ef, M. cbn [bind].
+  rewrite (find_range_inside _ (g + off) r W I) by lia. cbn [bind]. rewrite Ef, M. cbn [bind].
   unfold remove_vas_region_offset. destruct (N.leb_spec off (g + off)); [|lia].
   f_equal. lia.
 Qed.
 
 Example roundtrip_applies :
-  let rg := mk_registry 0 [0; 1] [mk_rrange 4096 8192 0; mk_rrange 8192 12288 1] [(0, 4096); (1, 8192)] in
+  let rg := mk_registry 0 [0; 1] [mk_rrange 4096 8192 0; mk_rrange 8192 12288 1] [(0, 4096); (1, 8192)] [] in
   relocate_to_segment rg 16 1 = Ok 8208 /\ lands_in_file rg 1 8208 = true.
 Proof. split; reflexivity. Qed.
 
 (* ------------------------------------------------------------------ *)
 (** * update_mappings: which offset is recorded                         *)
 
-Lemma file_mapping_lowest : forall maps f off r,
-  file_mapping maps f = Ok (Some (off, r)) -> lowest_start maps f = Some off /\ r_file r = f /\ r_from r = off.
+Lemma file_mapping_lowest : forall lb maps f off r,
+  file_mapping lb maps f = Ok (Some (off, r)) ->
+  exists s, lowest_start maps f = Some s /\ off = s - link_base_of lb f /\ r_file r = f /\ r_from r = s.
 Proof.
-  intros maps f off r H. unfold file_mapping, lowest_start in *.
+  intros lb maps f off r H. unfold file_mapping, lowest_start in *.
   destruct (filter (pm_of f) maps) as [|m0 ms]; [discriminate|].
-  destruct (_ <? USIZE_LIMIT); [|discriminate]. inversion H; subst. repeat split; reflexivity.
+  destruct (_ <? USIZE_LIMIT); [|discriminate]. inversion H; subst.
+  eexists. repeat split; reflexivity.
 Qed.
 
-Lemma file_mapping_none : forall maps f, file_mapping maps f = Ok None -> lowest_start maps f = None.
+Lemma file_mapping_none : forall lb maps f, file_mapping lb maps f = Ok None -> lowest_start maps f = None.
 Proof.
-  intros maps f H. unfold file_mapping, lowest_start in *.
+  intros lb maps f H. unfold file_mapping, lowest_start in *.
   destruct (filter (pm_of f) maps) as [|m0 ms]; [reflexivity|].
   destruct (_ <? USIZE_LIMIT); discriminate.
 Qed.
 
-Lemma collect_mappings_notin : forall maps files ms rs es f,
-  collect_mappings maps files = Ok (ms, rs, es) -> ~ In f files -> mapping_get ms f = None.
+(* load bias the repaired code records: lowest mapping start - link base (saturating) *)
+Definition bias_of (lb : list (N * N)) (maps : list pmap) (f : N) : option N :=
+  match lowest_start maps f with Some s => Some (s - link_base_of lb f) | None => None end.
+
+Lemma collect_mappings_notin : forall lb maps files ms rs es f,
+  collect_mappings lb maps files = Ok (ms, rs, es) -> ~ In f files -> mapping_get ms f = None.
 Proof.
-  intros maps files. induction files as [|y t IH]; intros ms rs es f C NI.
+  intros lb maps files. induction files as [|y t IH]; intros ms rs es f C NI.
   - cbn in C. inversion C. reflexivity.
   - cbn [collect_mappings] in C.
-    destruct (file_mapping maps y) as [fm| | |]; try discriminate. cbn [bind] in C.
-    destruct (collect_mappings maps t) as [[[ms2 rs2] es2]| | |]; try discriminate. cbn [bind] in C.
+    destruct (file_mapping lb maps y) as [fm| | |]; try discriminate. cbn [bind] in C.
+    destruct (collect_mappings lb maps t) as [[[ms2 rs2] es2]| | |]; try discriminate. cbn [bind] in C.
     assert (N1 : f <> y) by (intros E; apply NI; left; symmetry; exact E).
     assert (N2 : ~ In f t) by (intros E; apply NI; right; exact E).
     destruct fm as [[off r]|]; inversion C; subst.
@@ -352,77 +350,107 @@ Proof.
     + apply (IH _ _ _ f eq_refl N2).
 Qed.
 
-Lemma collect_mappings_get : forall maps files ms rs es,
-  collect_mappings maps files = Ok (ms, rs, es) ->
-  forall f, In f files -> mapping_get ms f = lowest_start maps f.
+Lemma collect_mappings_get : forall lb maps files ms rs es,
+  collect_mappings lb maps files = Ok (ms, rs, es) ->
+  forall f, In f files -> mapping_get ms f = bias_of lb maps f.
 Proof.
-  intros maps files. induction files as [|x t IH]; intros ms rs es H f I; [destruct I|].
+  intros lb maps files. induction files as [|x t IH]; intros ms rs es H f I; [destruct I|].
   cbn [collect_mappings] in H.
-  destruct (file_mapping maps x) as [fm| | |] eqn:Fm; try discriminate. cbn [bind] in H.
-  destruct (collect_mappings maps t) as [[[ms' rs'] es']| | |] eqn:C; try discriminate. cbn [bind] in H.
+  destruct (file_mapping lb maps x) as [fm| | |] eqn:Fm; try discriminate. cbn [bind] in H.
+  destruct (collect_mappings lb maps t) as [[[ms' rs'] es']| | |] eqn:C; try discriminate. cbn [bind] in H.
   destruct fm as [[off r]|].
   - inversion H; subst. unfold mapping_get. cbn [alist_get].
     destruct (N.eqb_spec f x) as [E | Ne].
-    + subst x. apply file_mapping_lowest in Fm. destruct Fm as [L _]. symmetry. exact L.
+    + subst x. apply file_mapping_lowest in Fm. destruct Fm as [s0 [L [Eo _]]].
+      unfold bias_of. rewrite L, Eo. reflexivity.
     + destruct I as [E | I]; [congruence|]. apply (IH _ _ _ eq_refl f I).
   - inversion H; subst. destruct (N.eqb_spec f x) as [E | Ne].
-    + subst x. apply file_mapping_none in Fm. rewrite Fm.
+    + subst x. apply file_mapping_none in Fm. unfold bias_of. rewrite Fm.
       destruct (in_dec N.eq_dec f t) as [I' | NI].
-      * rewrite (IH _ _ _ eq_refl f I'). exact Fm.
+      * rewrite (IH _ _ _ eq_refl f I'). unfold bias_of. rewrite Fm. reflexivity.
       * eapply collect_mappings_notin; eassumption.
     + destruct I as [E | I]; [congruence|]. apply (IH _ _ _ eq_refl f I).
 Qed.
 
-(* the offset recorded for a file is the start of its lowest mapping *)
+(* the offset recorded for a file is the start of its lowest mapping minus its link base *)
 Theorem update_mappings_offset : forall rg maps rg' es f,
   update_mappings rg false maps = Ok (rg', es) -> In f (reg_files rg) ->
-  mapping_get (reg_mappings rg') f = lowest_start maps f.
+  mapping_get (reg_mappings rg') f = bias_of (reg_link rg) maps f.
 Proof.
   intros rg maps rg' es f H I. unfold update_mappings in H.
-  destruct (collect_mappings maps (reg_files rg)) as [[[ms rs] es']| | |] eqn:C; try discriminate.
+  destruct (collect_mappings (reg_link rg) maps (reg_files rg)) as [[[ms rs] es']| | |] eqn:C; try discriminate.
   cbn [bind] in H. inversion H; subst. cbn [reg_mappings].
   eapply collect_mappings_get; eassumption.
 Qed.
 
-(* FULL STATEMENT (false, see nonpie_refuted):
-     forall im maps g a, (registry refreshed from maps) -> relocate_to_segment rg' g (im_file im) = Ok a ->
-       spec_runtime_addr maps im g = Some a.
-   PROVED for images linked at address 0 (PIE executables, shared libraries). *)
-Theorem relocate_pie_partial : forall rg maps rg' es im g a,
+(* the specification's domain: the image is mapped at or above its link base, and g is an
+   address of the image (both hold for every ELF image the kernel / ld.so loaded) *)
+Definition image_ok (maps : list pmap) (im : image) (g : N) : bool :=
+  match lowest_start maps (im_file im) with Some s => im_min_vaddr im <=? s | None => true end
+  && (im_min_vaddr im <=? g).
+
+(* HEADLINE: for ANY image (PIE executable, non-PIE ET_EXEC executable, shared library at
+   start-up or by dlopen) whose link base the registry knows, relocation of a link-time
+   address is exactly where that address is in the process: `Ok a` with a the run-time
+   address, MappingOffsetNotFound iff the file is not mapped. *)
+Theorem relocate_exact : forall rg maps rg' es im g,
   update_mappings rg false maps = Ok (rg', es) -> In (im_file im) (reg_files rg) ->
-  im_min_vaddr im = 0 ->
+  link_base_of (reg_link rg) (im_file im) = im_min_vaddr im ->
+  image_ok maps im g = true ->
+  relocate_to_segment rg' g (im_file im) =
+  match spec_runtime_addr maps im g with
+  | Some a => if a <? USIZE_LIMIT then Ok a else Panic 10
+  | None => Err E_MAPPING_OFFSET_NOT_FOUND
+  end.
+Proof.
+  intros rg maps rg' es im g H I Lb Ok_.
+  unfold relocate_to_segment, mapping_offset_for_file.
+  rewrite (update_mappings_offset _ _ _ _ _ H I). unfold bias_of, spec_runtime_addr, image_ok in *.
+  rewrite Lb. destruct (lowest_start maps (im_file im)) as [s|]; [|reflexivity].
+  apply andb_true_iff in Ok_. destruct Ok_ as [O1 O2]. rewrite O1, O2. cbn [andb bind].
+  apply N.leb_le in O1. apply N.leb_le in O2. unfold relocate.
+  replace (g + (s - im_min_vaddr im)) with (g - im_min_vaddr im + s) by lia. reflexivity.
+Qed.
+
+Corollary relocate_sound : forall rg maps rg' es im g a,
+  update_mappings rg false maps = Ok (rg', es) -> In (im_file im) (reg_files rg) ->
+  link_base_of (reg_link rg) (im_file im) = im_min_vaddr im ->
+  image_ok maps im g = true ->
   relocate_to_segment rg' g (im_file im) = Ok a ->
   spec_runtime_addr maps im g = Some a.
 Proof.
-  intros rg maps rg' es im g a H I Z Hr.
-  unfold relocate_to_segment, mapping_offset_for_file in Hr.
-  rewrite (update_mappings_offset _ _ _ _ _ H I) in Hr.
-  unfold spec_runtime_addr. destruct (lowest_start maps (im_file im)) as [s|]; [|discriminate].
-  cbn [bind] in Hr. unfold relocate in Hr. destruct (g + s <? USIZE_LIMIT); [|discriminate].
-  inversion Hr; subst. rewrite Z. cbn [N.leb]. destruct (N.leb_spec 0 s); [|lia].
-  destruct (N.leb_spec 0 g); [|lia]. cbn [andb]. f_equal. lia.
+  intros rg maps rg' es im g a H I Lb Ok_ Hr.
+  rewrite (relocate_exact _ _ _ _ _ _ H I Lb Ok_) in Hr.
+  destruct (spec_runtime_addr maps im g) as [a'|]; [|discriminate].
+  destruct (a' <? USIZE_LIMIT); [|discriminate]. inversion Hr. reflexivity.
 Qed.
 
 Example relocate_pie_applies :
   let maps := [mk_pmap (Some 0) 93824992231424 4096; mk_pmap (Some 0) 93824992235520 8192] in
-  exists rg' es, update_mappings (mk_registry 0 [0] [] []) false maps = Ok (rg', es) /\
+  image_ok maps (mk_image 0 0) 4406 = true /\
+  exists rg' es, update_mappings (mk_registry 0 [0] [] [] []) false maps = Ok (rg', es) /\
                  relocate_to_segment rg' 4406 0 = Ok 93824992235830.
-Proof. eexists. eexists. split; reflexivity. Qed.
+Proof. split; [reflexivity|]. eexists. eexists. split; reflexivity. Qed.
 
 (* a non-PIE (ET_EXEC) executable linked at 0x400000: `main` at link address 0x401136 is
-   mapped AT 0x401136, the debugger computes 0x401136 + 0x400000 = 0x801136 *)
+   mapped AT 0x401136, and that is where the breakpoint goes now *)
 Definition nonpie_maps : list pmap :=
   [mk_pmap (Some 0) 4194304 4096; mk_pmap (Some 0) 4198400 4096; mk_pmap (Some 0) 4202496 4096;
    mk_pmap None 140737351856128 135168].
 
-Theorem nonpie_refuted : exists im maps g rg' es,
-  update_mappings (mk_registry (im_file im) [im_file im] [] []) false maps = Ok (rg', es) /\
-  relocate_to_segment rg' g (im_file im) = Ok 8393014 /\       (* 0x801136 *)
-  spec_runtime_addr maps im g = Some 4198710.                  (* 0x401136 *)
-Proof.
-  exists (mk_image 0 4194304), nonpie_maps, 4198710. eexists. eexists.
-  split; [reflexivity|]. split; reflexivity.
-Qed.
+Example relocate_nonpie_applies :
+  image_ok nonpie_maps (mk_image 0 4194304) 4198710 = true /\
+  exists rg' es,
+    update_mappings (mk_registry 0 [0] [] [] [(0, 4194304)]) false nonpie_maps = Ok (rg', es) /\
+    relocate_to_segment rg' 4198710 0 = Ok 4198710 /\                           (* 0x401136 *)
+    spec_runtime_addr nonpie_maps (mk_image 0 4194304) 4198710 = Some 4198710.
+Proof. split; [reflexivity|]. eexists. eexists. split; [reflexivity|]. split; reflexivity. Qed.
+
+(* _old (before 74a62de, `mapping = lower_sect.start()`): only
+     relocate_pie_partial : ... im_min_vaddr im = 0 -> relocate_to_segment rg' g f = Ok a -> spec_runtime_addr maps im g = Some a
+   held, and nonpie_refuted : for the image / maps / g above the model answered
+     relocate_to_segment rg' 4198710 0 = Ok 8393014 (0x801136 = 0x401136 + 0x400000).
+   Confirmed on the real debugger (start fails with Ptrace(EIO)), repaired. *)
 
 (* ------------------------------------------------------------------ *)
 (** * `sharedlib info`                                                  *)
@@ -440,15 +468,15 @@ Proof.
   rewrite in_insert_range, IH. intuition congruence.
 Qed.
 
-Lemma collect_mappings_ranges : forall maps files ms rs es,
-  collect_mappings maps files = Ok (ms, rs, es) ->
-  forall r, In r rs <-> exists f off, In f files /\ file_mapping maps f = Ok (Some (off, r)).
+Lemma collect_mappings_ranges : forall lb maps files ms rs es,
+  collect_mappings lb maps files = Ok (ms, rs, es) ->
+  forall r, In r rs <-> exists f off, In f files /\ file_mapping lb maps f = Ok (Some (off, r)).
 Proof.
-  intros maps files. induction files as [|x t IH]; intros ms rs es H r.
+  intros lb maps files. induction files as [|x t IH]; intros ms rs es H r.
   - cbn in H. inversion H; subst. split; [intros []|intros [f [off [[] _]]]].
   - cbn [collect_mappings] in H.
-    destruct (file_mapping maps x) as [fm| | |] eqn:Fm; try discriminate. cbn [bind] in H.
-    destruct (collect_mappings maps t) as [[[ms' rs'] es']| | |] eqn:C; try discriminate. cbn [bind] in H.
+    destruct (file_mapping lb maps x) as [fm| | |] eqn:Fm; try discriminate. cbn [bind] in H.
+    destruct (collect_mappings lb maps t) as [[[ms' rs'] es']| | |] eqn:C; try discriminate. cbn [bind] in H.
     specialize (IH _ _ _ eq_refl r).
     destruct fm as [[off0 r0]|]; inversion H; subst.
     + cbn [In]. rewrite IH. split.
@@ -465,10 +493,10 @@ Proof.
         -- exists f, off. split; assumption.
 Qed.
 
-Lemma file_mapping_mapped : forall maps f o,
-  file_mapping maps f = Ok o -> (is_mapped maps f = true <-> o <> None).
+Lemma file_mapping_mapped : forall lb maps f o,
+  file_mapping lb maps f = Ok o -> (is_mapped maps f = true <-> o <> None).
 Proof.
-  intros maps f o H. unfold file_mapping in H. unfold is_mapped.
+  intros lb maps f o H. unfold file_mapping in H. unfold is_mapped.
   destruct (filter (pm_of f) maps) as [|m0 ms] eqn:F.
   - inversion H; subst. split; [|congruence]. intros E. apply existsb_exists in E.
     destruct E as [m [I P]]. assert (In m (filter (pm_of f) maps)) by (apply filter_In; split; assumption).
@@ -477,13 +505,13 @@ Proof.
     apply existsb_exists. exists m0. apply filter_In. rewrite F. left. reflexivity.
 Qed.
 
-Lemma collect_mappings_total : forall maps files ms rs es f,
-  collect_mappings maps files = Ok (ms, rs, es) -> In f files -> exists o, file_mapping maps f = Ok o.
+Lemma collect_mappings_total : forall lb maps files ms rs es f,
+  collect_mappings lb maps files = Ok (ms, rs, es) -> In f files -> exists o, file_mapping lb maps f = Ok o.
 Proof.
-  intros maps files. induction files as [|x t IH]; intros ms rs es f C I; [destruct I|].
+  intros lb maps files. induction files as [|x t IH]; intros ms rs es f C I; [destruct I|].
   cbn [collect_mappings] in C.
-  destruct (file_mapping maps x) as [fm| | |] eqn:Fm; try discriminate. cbn [bind] in C.
-  destruct (collect_mappings maps t) as [[[ms' rs'] es2]| | |] eqn:C2; try discriminate.
+  destruct (file_mapping lb maps x) as [fm| | |] eqn:Fm; try discriminate. cbn [bind] in C.
+  destruct (collect_mappings lb maps t) as [[[ms' rs'] es2]| | |] eqn:C2; try discriminate.
   destruct I as [E | I]; [subst x; eexists; exact Fm|]. eapply IH; [reflexivity|exact I].
 Qed.
 
@@ -496,23 +524,23 @@ Theorem dump_exact : forall rg maps rg' es,
     (range_of_file (reg_ranges rg') f <> None <-> is_mapped maps f = true).
 Proof.
   intros rg maps rg' es H. unfold update_mappings in H.
-  destruct (collect_mappings maps (reg_files rg)) as [[[ms rs] es']| | |] eqn:C; try discriminate.
+  destruct (collect_mappings (reg_link rg) maps (reg_files rg)) as [[[ms rs] es']| | |] eqn:C; try discriminate.
   cbn [bind] in H. inversion H; subst. cbn [reg_ranges reg_files]. split.
   - unfold dump. cbn [reg_files]. rewrite map_map. cbn [fst]. apply map_id.
   - intros f I. unfold range_of_file.
-    assert (Tot : exists o, file_mapping maps f = Ok o) by (eapply collect_mappings_total; eassumption).
-    destruct Tot as [o Fo]. rewrite (file_mapping_mapped maps f o Fo).
+    assert (Tot : exists o, file_mapping (reg_link rg) maps f = Ok o) by (eapply collect_mappings_total; eassumption).
+    destruct Tot as [o Fo]. rewrite (file_mapping_mapped _ maps f o Fo).
     destruct (find (fun r => r_file r =? f) (sort_ranges rs)) as [r|] eqn:Fd.
     + split; [intros _|discriminate]. apply find_some in Fd. destruct Fd as [Ir Ef].
       apply N.eqb_eq in Ef. apply (proj1 (in_sort_ranges _ _)) in Ir.
-      apply (proj1 (collect_mappings_ranges _ _ _ _ _ C _)) in Ir. destruct Ir as [f' [off [If' Hf']]].
-      pose proof (file_mapping_lowest _ _ _ _ Hf') as [_ [Ef' _]]. assert (f' = f) by congruence. subst f'.
+      apply (proj1 (collect_mappings_ranges _ _ _ _ _ _ C _)) in Ir. destruct Ir as [f' [off [If' Hf']]].
+      pose proof (file_mapping_lowest _ _ _ _ _ Hf') as [s0 [_ [_ [Ef' _]]]]. assert (f' = f) by congruence. subst f'.
       rewrite Ef in Hf'. rewrite Fo in Hf'. inversion Hf'. discriminate.
     + split; [congruence|]. intros No. exfalso. destruct o as [[off r]|]; [|congruence].
       assert (Ir : In r (sort_ranges rs)).
-      { apply (proj2 (in_sort_ranges _ _)). apply (proj2 (collect_mappings_ranges _ _ _ _ _ C _)). exists f, off. split; assumption. }
+      { apply (proj2 (in_sort_ranges _ _)). apply (proj2 (collect_mappings_ranges _ _ _ _ _ _ C _)). exists f, off. split; assumption. }
       pose proof (find_none _ _ Fd r Ir) as Nf. cbn beta in Nf.
-      apply file_mapping_lowest in Fo. destruct Fo as [_ [Ef _]]. rewrite Ef, N.eqb_refl in Nf. discriminate.
+      apply file_mapping_lowest in Fo. destruct Fo as [s0 [_ [_ [Ef _]]]]. rewrite Ef, N.eqb_refl in Nf. discriminate.
 Qed.
 
 (* which files the registry holds after a library event: the main program, and the link-map
@@ -572,30 +600,24 @@ Proof.
       split; [intros [? [? ?]]; auto|]. intros [? [[E | ?] Hd]]; auto. subst d'. congruence.
 Qed.
 
-Definition is_linker (r : round) : bool := match fst r with EvLinkerMap => true | EvEntry => false end.
-
-(* FULL STATEMENT (false, see deferred_startup_refuted): the same for every sequence of events.
-   PROVED when every event is an r_brk (LinkerMapFn) stop: a request leaves the deferred
-   list exactly at the first event whose registry makes it installable, and it is logged
-   (= installed) there and nowhere else. *)
-Theorem deferred_partial : forall rs idx ds ds' lg,
-  forallb is_linker rs = true ->
+(* For EVERY sequence of entry-point / r_brk stops: a request leaves the deferred list exactly
+   at the first event whose registry makes it installable, and it is logged (= installed)
+   there and nowhere else. *)
+Theorem deferred : forall rs idx ds ds' lg,
   run_rounds idx rs ds = (ds', lg) ->
   (forall d, In d ds' <-> In d ds /\ first_ok idx rs d = None) /\
   (forall i d a, In (i, d, a) lg <-> In d ds /\ first_ok idx rs d = Some (i, a)).
 Proof.
-  induction rs as [|[k ts] t IH]; intros idx ds ds' lg Hl H.
+  induction rs as [|[k ts] t IH]; intros idx ds ds' lg H.
   - cbn in H. inversion H; subst. cbn [first_ok]. split.
     + intros d. tauto.
     + intros i d a. split; [intros []|intros [_ E]; discriminate].
-  - cbn [forallb] in Hl. apply andb_true_iff in Hl. destruct Hl as [Hk Hl].
-    unfold is_linker in Hk. cbn [fst] in Hk. destruct k; [discriminate|].
-    cbn [run_rounds] in H.
+  - cbn [run_rounds] in H.
     destruct (refresh_deferred ts idx ds) as [[keep lg0] errs] eqn:R.
     destruct (run_rounds (S idx) t keep) as [ds2 lg2] eqn:RR.
     inversion H; subst. clear H.
     destruct (refresh_deferred_spec _ _ _ _ _ _ R) as [Hkeep [_ Hlg0]].
-    destruct (IH _ _ _ _ Hl RR) as [Hd Hlg].
+    destruct (IH _ _ _ _ RR) as [Hd Hlg].
     assert (Kin : forall d, In d keep <-> In d ds /\ installs ts d = false).
     { intros d. rewrite Hkeep, filter_In, negb_true_iff. tauto. }
     split.
@@ -625,68 +647,64 @@ Lemma run_rounds_requests : forall rs idx ds ds' lg,
 Proof.
   induction rs as [|[k ts] t IH]; intros idx ds ds' lg H e Ie.
   - cbn in H. inversion H; subst. destruct Ie.
-  - cbn [run_rounds] in H. destruct k.
-    + eapply IH; eassumption.
-    + destruct (refresh_deferred ts idx ds) as [[keep lg0] errs] eqn:R.
-      destruct (run_rounds (S idx) t keep) as [ds2 lg2] eqn:RR. inversion H; subst.
-      destruct (refresh_deferred_spec _ _ _ _ _ _ R) as [Hkeep [Hm _]].
-      apply in_app_iff in Ie. destruct Ie as [Ie | Ie].
-      * pose proof (in_map req_of _ _ Ie) as I.
-        rewrite Hm in I. apply filter_In in I. tauto.
-      * pose proof (IH _ _ _ _ RR e Ie) as I. rewrite Hkeep in I. apply filter_In in I. tauto.
+  - cbn [run_rounds] in H.
+    destruct (refresh_deferred ts idx ds) as [[keep lg0] errs] eqn:R.
+    destruct (run_rounds (S idx) t keep) as [ds2 lg2] eqn:RR. inversion H; subst.
+    destruct (refresh_deferred_spec _ _ _ _ _ _ R) as [Hkeep [Hm _]].
+    apply in_app_iff in Ie. destruct Ie as [Ie | Ie].
+    + pose proof (in_map req_of _ _ Ie) as I.
+      rewrite Hm in I. apply filter_In in I. tauto.
+    + pose proof (IH _ _ _ _ RR e Ie) as I. rewrite Hkeep in I. apply filter_In in I. tauto.
 Qed.
 
-(* exactly once, for every kind of event sequence: no request is installed twice *)
+(* exactly once: no request is installed twice *)
 Theorem deferred_once : forall rs idx ds ds' lg,
   NoDup ds -> run_rounds idx rs ds = (ds', lg) -> NoDup (map req_of lg).
 Proof.
   induction rs as [|[k ts] t IH]; intros idx ds ds' lg Nd H.
   - cbn in H. inversion H; subst. constructor.
-  - cbn [run_rounds] in H. destruct k.
-    + eapply IH; eassumption.
-    + destruct (refresh_deferred ts idx ds) as [[keep lg0] errs] eqn:R.
-      destruct (run_rounds (S idx) t keep) as [ds2 lg2] eqn:RR. inversion H; subst.
-      destruct (refresh_deferred_spec _ _ _ _ _ _ R) as [Hkeep [Hm _]].
-      rewrite map_app. apply NoDup_app_intro.
-      * rewrite Hm. apply NoDup_filter. exact Nd.
-      * eapply IH; [|exact RR]. rewrite Hkeep. apply NoDup_filter. exact Nd.
-      * intros x I1 I2. rewrite Hm in I1. apply filter_In in I1. destruct I1 as [_ I1].
+  - cbn [run_rounds] in H.
+    destruct (refresh_deferred ts idx ds) as [[keep lg0] errs] eqn:R.
+    destruct (run_rounds (S idx) t keep) as [ds2 lg2] eqn:RR. inversion H; subst.
+    destruct (refresh_deferred_spec _ _ _ _ _ _ R) as [Hkeep [Hm _]].
+    rewrite map_app. apply NoDup_app_intro.
+    + rewrite Hm. apply NoDup_filter. exact Nd.
+    + eapply IH; [|exact RR]. rewrite Hkeep. apply NoDup_filter. exact Nd.
+    + intros x I1 I2. rewrite Hm in I1. apply filter_In in I1. destruct I1 as [_ I1].
         apply in_map_iff in I2. destruct I2 as [e [Ee Ie]]. subst x.
         pose proof (run_rounds_requests _ _ _ _ _ RR e Ie) as I. rewrite Hkeep in I.
         apply filter_In in I. destruct I as [_ I]. rewrite I1 in I. discriminate.
 Qed.
 
 (* A library that is a DT_NEEDED dependency is already loaded when the entry-point
-   breakpoint is hit; that stop refreshes the registry but does not retry the deferred list:
-   the request stays deferred although it is installable.  [startup_rg] holds the main
-   program only: this is the state before `run` when the static `ldd` pre-scan of
-   Debugee::new_non_running (debugee/mod.rs:137-141) failed or did not see the library
-   (then `break f` is offered as a deferred breakpoint).  Replayed on the real debugger,
-   see REPORT.md. *)
+   breakpoint is hit.  [startup_rg] holds the main program only: this is the state before
+   `run` when the static `ldd` pre-scan of Debugee::new_non_running (debugee/mod.rs:137-141)
+   failed or did not see the library (then `break f` is offered as a deferred breakpoint).
+   The entry-point stop registers the library and now also retries the deferred list. *)
 Definition startup_resolve (f d : N) : list N := if (f =? 1) && (d =? 5) then [4416] else [].
 Definition startup_maps : list pmap :=
   [mk_pmap (Some 0) 93824992231424 16384; mk_pmap (Some 1) 140737351856128 16384].
-Definition startup_rg : registry := mk_registry 0 [0] [] [].
+Definition startup_rg : registry := mk_registry 0 [0] [] [] [].
 
-Theorem deferred_startup_refuted : exists rg1,
-  update_debug_info_registry (fun _ => true) startup_rg [1] startup_maps = Ok rg1 /\
-  (* the request is installable against the registry the entry-point stop produced ... *)
-  try_set_breakpoint startup_resolve (fun _ => true) rg1 5 = AInstalled [140737351860544] /\
-  (* ... but it is neither installed nor removed from the deferred list *)
+Example deferred_startup_ok :
   run_events startup_resolve (fun _ => true) (fun _ => true) startup_rg
-             [(EvEntry, [1], startup_maps)] [5] = Ok ([5], []).
-Proof.
-  eexists. split; [vm_compute; reflexivity|]. split; vm_compute; reflexivity.
-Qed.
+             [(EvEntry, [1], startup_maps)] [5] = Ok ([], [(0%nat, 5, [140737351860544])]).
+Proof. vm_compute. reflexivity. Qed.
 
-(* the same library appearing at an r_brk stop (dlopen) is handled *)
+(* _old (before f0ae46b, EntryPoint arm without refresh_deferred): deferred_startup_refuted :
+     the same run answered Ok ([5], []) although try_set_breakpoint against the registry of that
+     stop = AInstalled [140737351860544]; `deferred` then needed `forallb is_linker rs = true`
+     (deferred_partial).  Confirmed on the real debugger (PATH without ldd, `break foo_add`,
+     deferred, `run`: no stop), repaired. *)
+
+(* a library appearing at an r_brk stop (dlopen) *)
 Example deferred_dlopen_ok :
   run_events startup_resolve (fun _ => true) (fun _ => true) startup_rg
              [(EvEntry, [], [mk_pmap (Some 0) 93824992231424 16384]); (EvLinkerMap, [1], startup_maps)] [5]
   = Ok ([], [(1%nat, 5, [140737351860544])]).
 Proof. vm_compute. reflexivity. Qed.
 
-(* run_events is run_rounds over the registry trajectory, so deferred_partial / deferred_once
+(* run_events is run_rounds over the registry trajectory, so deferred / deferred_once
    apply to it *)
 Theorem run_events_rounds : forall resolve poke_ok parse_ok rg evs ds r,
   run_events resolve poke_ok parse_ok rg evs ds = Ok r ->
